@@ -630,7 +630,15 @@ func Main() {
 			c := cps[i]
 			d := fmt.Sprintf("%s/p%d-c%d", tmp, pi, i)
 			journal := d + ".journal"
-			res := runBin([]string{"worker", wlFile, d, journal}, []string{fmt.Sprintf("VERIF_CRASH_AT=%s#%d", c.name, c.n)}, 10*time.Minute)
+			env := []string{fmt.Sprintf("VERIF_CRASH_AT=%s#%d", c.name, c.n)}
+			if i%3 == 2 {
+				// the goroutine that reaches the crash point is held there for a while before the kill: whatever runs
+				// concurrently (the snapshot writer, the block writer) gets further first - a crash a little later in a
+				// schedule in which this goroutine was not running
+				env = append(env, "VERIF_CRASH_DELAY_MS=250")
+				run.Inc("crash_runs_with_other_goroutines_running_on_before_the_kill")
+			}
+			res := runBin([]string{"worker", wlFile, d, journal}, env, 10*time.Minute)
 			if res.TimedOut {
 				run.Inconclusive("worker watchdog (crash point %s#%d)", c.name, c.n)
 				os.RemoveAll(d)
